@@ -13,7 +13,7 @@ ASSUMPTIONS = [
 def run(tier, seed):
     common.PID_ALIAS.update({"SQLM": "C07", "KVW": "C07", "KVM": "C07"})
     from .. import extra
-    return common.drop_foreign(sqlm.suites_c07(tier, seed) + kvb.suites_c07(tier, seed) + [extra.suite_sqlite_kill(tier, seed)], "C07")
+    return common.drop_foreign(sqlm.suites_c07(tier, seed) + kvb.suites_c07(tier, seed) + [extra.suite_sqlite_kill(tier, seed), extra.suite_concurrent_fault(tier, seed)], "C07")
 
 
 def replay(payload):
